@@ -307,6 +307,8 @@ func recordOfClass(cls string, sep byte, k int) []byte {
 	switch cls {
 	case "empty":
 		return []byte{}
+	case "nil": // the empty record spelled as a nil slice
+		return nil
 	case "one":
 		return []byte("z")
 	case "two":
@@ -607,7 +609,7 @@ func TestFrames(t *testing.T) {
 	}
 
 	if which == "C11" {
-		classes := []string{"empty", "one", "two", "cr", "lf", "nul", "comma", "hasSep", "utf8OfSep", "hibytes", "hdrlike", "b4095", "b4096", "b4097", "b70000"}
+		classes := []string{"empty", "nil", "one", "two", "cr", "lf", "nul", "comma", "hasSep", "utf8OfSep", "hibytes", "hdrlike", "b4095", "b4096", "b4097", "b70000"}
 		if thorough {
 			classes = append(classes, "m1", "m5", "m16")
 		}
